@@ -568,10 +568,9 @@ func StrFromBytes(row, off, ln *Term) *Term {
 	return App("gostr.frombytes", StrSort, row, off, ln)
 }
 
-// axioms about string operations occurring in the given term set
+// axioms about string operations, instantiated for the string terms that occur (ground instances:
+// quantifier-free, so that refutable obligations still get models)
 func stringAxioms(order []*Term) []*Term {
-	var ax []*Term
-	seen := map[int]bool{}
 	hasStr := false
 	for _, t := range order {
 		if t.Sort == StrSort {
@@ -581,59 +580,96 @@ func stringAxioms(order []*Term) []*Term {
 	if !hasStr {
 		return nil
 	}
-	// literals: pairwise distinct, lengths, characters
-	var usedLits []string
+	var ax []*Term
+	seenT := map[int]bool{}
+	var work []*Term
+	push := func(t *Term) {
+		if !seenT[t.id] && !t.bound {
+			seenT[t.id] = true
+			work = append(work, t)
+		}
+	}
 	for _, t := range order {
-		if lit, ok := litOf(t); ok && !seen[t.id] {
-			seen[t.id] = true
-			usedLits = append(usedLits, lit)
-		}
+		push(t)
 	}
-	for i, l := range usedLits {
-		t := strLits[l]
-		ax = append(ax, Eq(App("gostr.len", BV64, t), C64(int64(len(l)))))
-		for j := 0; j < len(l) && j < 64; j++ {
-			ax = append(ax, Eq(Select(StrRow(t), C64(int64(j))), Const(uint64(l[j]), 8)))
-		}
-		for _, m := range usedLits[i+1:] {
-			ax = append(ax, Not(Eq(t, strLits[m])))
-		}
-	}
-	s := Bound("s", StrSort)
-	u := Bound("u", StrSort)
-	lo := Bound("lo", BV64)
-	hi := Bound("hi", BV64)
-	i := Bound("i", BV64)
 	slen := func(x *Term) *Term { return App("gostr.len", BV64, x) }
 	sat := func(x, k *Term) *Term { return Select(StrRow(x), k) }
 	bound := C64(int64(SizeBound))
-	ax = append(ax, Forall([]*Term{s}, And(SLe(C64(0), slen(s)), SLe(slen(s), bound)), []*Term{slen(s)}))
+	var lits []string
+	litSeen := map[string]bool{}
+	add := func(t *Term) {
+		ax = append(ax, t)
+		sub, _ := collect([]*Term{t})
+		for _, x := range sub {
+			push(x)
+		}
+	}
+	for i := 0; i < len(work) && i < 20000; i++ {
+		t := work[i]
+		if lit, ok := litOf(t); ok && !litSeen[lit] {
+			litSeen[lit] = true
+			lits = append(lits, lit)
+			continue
+		}
+		if t.Op != "app" {
+			continue
+		}
+		switch t.Name {
+		case "gostr.len":
+			add(And(SLe(C64(0), t), SLe(t, bound)))
+		case "gostr.concat":
+			a, b := t.Args[0], t.Args[1]
+			add(Eq(slen(t), Add(slen(a), slen(b))))
+			add(Eq(App("gostr.sub", StrSort, t, slen(a), Add(slen(a), slen(b))), b))
+			add(Eq(App("gostr.sub", StrSort, t, C64(0), slen(a)), a))
+			// concatenation is injective in its second argument for a fixed first one (left-cancellation)
+		case "gostr.sub":
+			x, lo, hi := t.Args[0], t.Args[1], t.Args[2]
+			add(Implies(And(SLe(C64(0), lo), SLe(lo, hi), SLe(hi, slen(x))), Eq(slen(t), Sub(hi, lo))))
+			add(Implies(And(Eq(lo, C64(0)), Eq(hi, slen(x))), Eq(t, x)))
+		case "gostr.frombytes":
+			add(Implies(And(SLe(C64(0), t.Args[2]), SLe(t.Args[2], bound)), Eq(slen(t), t.Args[2])))
+		case "itoa":
+			add(And(App("atoi.ok", BoolSort, t), Eq(App("atoi.val", BV64, t), t.Args[0]), SLe(C64(1), slen(t)), SLe(slen(t), C64(20))))
+		}
+	}
+	for i, l := range lits {
+		t := strLits[l]
+		ax = append(ax, Eq(slen(t), C64(int64(len(l)))))
+		for j := 0; j < len(l) && j < 64; j++ {
+			ax = append(ax, Eq(sat(t, C64(int64(j))), Const(uint64(l[j]), 8)))
+		}
+		for _, m := range lits[i+1:] {
+			ax = append(ax, Not(Eq(t, strLits[m])))
+		}
+	}
+	// character-level axioms stay quantified (needed only where string contents are read)
 	uses := map[string]bool{}
-	for _, t := range order {
+	for _, t := range work {
 		if t.Op == "app" {
 			uses[t.Name] = true
 		}
 	}
-	if uses["gostr.concat"] {
-		cc := App("gostr.concat", StrSort, s, u)
-		ax = append(ax, Forall([]*Term{s, u}, Eq(slen(cc), Add(slen(s), slen(u))), []*Term{cc}))
-		ax = append(ax, Forall([]*Term{s, u, i}, Implies(And(SLe(C64(0), i), SLt(i, slen(s))), Eq(sat(cc, i), sat(s, i))), []*Term{sat(cc, i)}))
-		ax = append(ax, Forall([]*Term{s, u, i}, Implies(And(SLe(slen(s), i), SLt(i, Add(slen(s), slen(u)))), Eq(sat(cc, i), sat(u, Sub(i, slen(s))))), []*Term{sat(cc, i)}))
-		// prefix/suffix recovery
-		ax = append(ax, Forall([]*Term{s, u}, Eq(App("gostr.sub", StrSort, cc, slen(s), Add(slen(s), slen(u))), u), []*Term{cc}))
-		ax = append(ax, Forall([]*Term{s, u}, Eq(App("gostr.sub", StrSort, cc, C64(0), slen(s)), s), []*Term{cc}))
-	}
-	if uses["gostr.sub"] {
-		sb := App("gostr.sub", StrSort, s, lo, hi)
-		ax = append(ax, Forall([]*Term{s, lo, hi}, Implies(And(SLe(C64(0), lo), SLe(lo, hi), SLe(hi, slen(s))), Eq(slen(sb), Sub(hi, lo))), []*Term{sb}))
-		ax = append(ax, Forall([]*Term{s, lo, hi, i}, Implies(And(SLe(C64(0), lo), SLe(lo, hi), SLe(hi, slen(s)), SLe(C64(0), i), SLt(i, Sub(hi, lo))), Eq(sat(sb, i), sat(s, Add(lo, i)))), []*Term{sat(sb, i)}))
-		ax = append(ax, Forall([]*Term{s}, Eq(App("gostr.sub", StrSort, s, C64(0), slen(s)), s), []*Term{slen(s)}))
-	}
-	if uses["gostr.frombytes"] {
-		row := Bound("row", ArrSort(BV64, BV8))
-		fb := App("gostr.frombytes", StrSort, row, lo, hi)
-		ax = append(ax, Forall([]*Term{row, lo, hi}, Implies(And(SLe(C64(0), hi), SLe(hi, bound)), Eq(slen(fb), hi)), []*Term{fb}))
-		ax = append(ax, Forall([]*Term{row, lo, hi, i}, Implies(And(SLe(C64(0), i), SLt(i, hi)), Eq(sat(fb, i), Select(row, Add(lo, i)))), []*Term{sat(fb, i)}))
+	if uses["gostr.row"] {
+		s := Bound("s", StrSort)
+		u := Bound("u", StrSort)
+		lo := Bound("lo", BV64)
+		hi := Bound("hi", BV64)
+		i := Bound("i", BV64)
+		if uses["gostr.concat"] {
+			cc := App("gostr.concat", StrSort, s, u)
+			ax = append(ax, Forall([]*Term{s, u, i}, Implies(And(SLe(C64(0), i), SLt(i, slen(s))), Eq(sat(cc, i), sat(s, i))), []*Term{sat(cc, i)}))
+			ax = append(ax, Forall([]*Term{s, u, i}, Implies(And(SLe(slen(s), i), SLt(i, Add(slen(s), slen(u)))), Eq(sat(cc, i), sat(u, Sub(i, slen(s))))), []*Term{sat(cc, i)}))
+		}
+		if uses["gostr.sub"] {
+			sb := App("gostr.sub", StrSort, s, lo, hi)
+			ax = append(ax, Forall([]*Term{s, lo, hi, i}, Implies(And(SLe(C64(0), lo), SLe(lo, hi), SLe(hi, slen(s)), SLe(C64(0), i), SLt(i, Sub(hi, lo))), Eq(sat(sb, i), sat(s, Add(lo, i)))), []*Term{sat(sb, i)}))
+		}
+		if uses["gostr.frombytes"] {
+			row := Bound("row", ArrSort(BV64, BV8))
+			fb := App("gostr.frombytes", StrSort, row, lo, hi)
+			ax = append(ax, Forall([]*Term{row, lo, hi, i}, Implies(And(SLe(C64(0), i), SLt(i, hi)), Eq(sat(fb, i), Select(row, Add(lo, i)))), []*Term{sat(fb, i)}))
+		}
 	}
 	return ax
 }
